@@ -102,22 +102,23 @@ Qed.
 
 (* ---------------------------------------------------------------- the block's value and the value region *)
 (* what lies in a scope's part of the operand stack at a statement boundary: nothing, the value of the region, and under
-   that value at most the nil a calling operator left in the new scope *)
-Definition under (t:list value) : Prop := t = [] \/ t = [VNil].
+   that value only nils: the nil a calling operator left in the new scope, the nils of scopes a throw has abandoned *)
+Definition under (t:list value) : Prop := Forall (fun x => x = VNil) t.
 Definition reg_rep (reg:rvalue) (top:list value) : Prop :=
   match top with [] => reg = RNone | x :: t => x = cv reg /\ reg <> RNone /\ under t end.
-(* where a statement starts: at the bottom of the scope's part, or on the nil of the calling operator *)
-Definition Fresh (c:context) (below:list value) : Prop := c_values c = below \/ c_values c = VNil :: below.
+(* where a statement starts: at the bottom of the scope's part, or on nils only (the nil of the calling operator; after a throw
+   the nils the abandoned scopes held) *)
+Definition Fresh (c:context) (below:list value) : Prop := exists t, c_values c = t ++ below /\ under t.
 
 Lemma fresh_under c top below : c_values c = top ++ below -> Fresh c below -> under top.
-Proof.
-  intros EV [F|F]; rewrite EV in F.
-  - left. destruct top as [|x t]; [reflexivity|]. apply (f_equal (@length value)) in F. rewrite app_length in F. cbn in F. lia.
-  - right. destruct top as [|x [|y t]].
-    + apply (f_equal (@length value)) in F. cbn in F. lia.
-    + cbn in F. inversion F. reflexivity.
-    + apply (f_equal (@length value)) in F. cbn in F. rewrite app_length in F. lia.
-Qed.
+Proof. intros EV (t & E & U). rewrite EV in E. apply app_inv_tail in E. subst t. exact U. Qed.
+Lemma fresh_nil c below : c_values c = below -> Fresh c below.
+Proof. intros E. exists []. split; [exact E|constructor]. Qed.
+Lemma fresh_one c below : c_values c = VNil :: below -> Fresh c below.
+Proof. intros E. exists [VNil]. split; [exact E|repeat constructor]. Qed.
+Lemma under_top t : under t -> match t with [] => VNil | x :: _ => x end = VNil.
+Proof. intros U. destruct U as [|x t' E _]; [reflexivity|exact E]. Qed.
+Ltac nil_case := first [apply fresh_nil; reflexivity | apply Forall_nil].
 
 (* where the machine stands, relative to a reference state *)
 Definition At (s:sstate) (reg:rvalue) (r:rt) (c:context) (f:frame) (rest:list frame) (below:list value) : Prop :=
@@ -319,7 +320,7 @@ Proof.
     replace (length top + length below - length below) with (length top) by lia. rewrite skipn_app, skipn_all, Nat.sub_diag. reflexivity. }
   destruct (run_one r c f rest IEnd _ G EF N EX) as [S1 G1].
   { destruct G as (_ & _ & _ & _ & _ & _ & SU). exact SU. }
-  exists (upd_cur r (set_values c1 below)), (set_values c1 below). split; [exact S1|]. split; [|left; reflexivity]. split; [exact G1|]. split; [reflexivity|]. split.
+  exists (upd_cur r (set_values c1 below)), (set_values c1 below). split; [exact S1|]. split; [|nil_case]. split; [exact G1|]. split; [reflexivity|]. split.
   { destruct M as [F NS]. split; [|rewrite world_upd_cur; exact NS]. inversion F as [|sc f0 scs fs FM F' E1 E2]; subst. try rewrite <- E1. constructor; assumption. }
   split; [exact LB|]. exists []. split; reflexivity.
 Qed.
